@@ -120,6 +120,36 @@ def sc_rebin(cx, ne, nb, nb2, read_first):
     cx.eq("rebinned:raw_data_sorted", raw, want)
 
 
+def sc_rebin2(cx, ne1, ne2, nb, nb2, reads):
+    """two batches, both already sorted into the bins (a read after each), then rebin"""
+    H = _hist()
+    edges, entries = _inputs(cx, ne1 + ne2, nb)
+    edges2 = cx.reals("f", nb2 + 1)
+    for i in range(nb2):
+        cx.assume(edges2[i] <= edges2[i + 1])
+    cx.assume(edges2[0] < edges2[nb2])
+    h = H(bin_edges=list(edges))
+    h.fill(list(entries[:ne1]))
+    getattr(h, reads[0])
+    h.fill(list(entries[ne1:]))
+    getattr(h, reads[1])
+    h.rebin(list(edges2))
+    _check_all(cx, h, entries, edges2, "rebinned2")
+
+
+def sc_fp_edges(cx, lo, hi, nb):
+    """concrete sub-check (floating point, not a solver verdict): entries equal to the container's own bin edges of an
+    equal-width binning with a width that is not exactly representable land in the bin that starts at that edge"""
+    H = _hist()
+    h = H(n_bins=nb, bin_range=(lo, hi))
+    edges = [float(e) for e in h.bin_edges]
+    h.fill(edges)
+    d = h.data
+    for i in range(nb):
+        cx.concrete("fp-edges:(%g,%g)/%d:bin%d" % (lo, hi, nb, i), int(d[i]) == 1, info="bin %d holds %r entries; edges filled: %r" % (i, d[i], edges))
+    cx.concrete("fp-edges:(%g,%g)/%d:overflow" % (lo, hi, nb), int(h.overflow) == 1 and int(h.underflow) == 0, info="uf %r of %r" % (h.underflow, h.overflow))
+
+
 def sorted_sym(cx, xs):
     xs = list(xs)
     n = len(xs)
@@ -215,6 +245,13 @@ def scenarios(tier, seed):
     for ne, nb, nb2 in ([(2, 2, 1), (2, 1, 2)] if tier == "quick" else [(2, 2, 1), (2, 1, 2), (3, 2, 2), (3, 2, 3), (3, 3, 2)]):
         for rf in (False, True):
             S.append(Scenario("rebin/e%db%d-to-b%d/read-first-%s" % (ne, nb, nb2, rf), sc_rebin, params=dict(ne=ne, nb=nb, nb2=nb2, read_first=rf)))
+    for ne1, ne2, nb, nb2 in ([(1, 1, 1, 2)] if tier == "quick" else [(1, 1, 1, 2), (2, 1, 2, 1), (2, 1, 2, 2), (2, 2, 2, 2), (1, 2, 2, 3)]):
+        for reads in (("data", "data"), ("overflow", "n_entries"), ("data", "underflow")):
+            if tier == "quick" and reads[0] != "data":
+                continue
+            S.append(Scenario("rebin2/e%d+%d/b%d-to-b%d/reads-%s" % (ne1, ne2, nb, nb2, "+".join(reads)), sc_rebin2, family="rebin2", params=dict(ne1=ne1, ne2=ne2, nb=nb, nb2=nb2, reads=reads)))
+    for lo, hi, nb in [(1.0, 2.0, 10), (0.0, 1.0, 10), (0.0, 0.7, 7), (-1.0, 2.0, 9), (0.1, 0.4, 3), (1.0, 2.0, 3), (0.0, 1.1, 11)]:
+        S.append(Scenario("fp-edges/%g-%g-%d" % (lo, hi, nb), sc_fp_edges, family="fp-edges", params=dict(lo=lo, hi=hi, nb=nb)))
     S.append(Scenario("twin/closed-upper", sc_twin_closed_upper, twin=True))
     S.append(Scenario("twin/dropped-entry", sc_twin_dropped_entry, twin=True))
     return S
